@@ -621,7 +621,8 @@ def baked_pair(col, pp, prog, pre_hook=None):
     if eager.exc is not None:
         col.exclude('program does not run eagerly')
         return None
-    set_rel_tol(world, eager, prog)
+    # (the tracking checks keep the strict comparison, 1e-11 relative: a program whose bake drifts further from the
+    # eager fold is excluded and counted, so the ledgers can stay tight; the size-relative comparison is C08's)
     seg1, seg2 = split_chain(prog)
     rr = run_recipe(pp, R, seg1)
     offset = 0
